@@ -104,7 +104,7 @@ fn remap_where(td: &TypeDef, w: &mut WExpr, base: i64, step: i64) {
     }
 }
 
-fn case_strategy(tier: Tier, open: Vec<bool>) -> BoxedStrategy<Case> {
+fn case_strategy(tier: Tier, open: Vec<bool>, no_big_u64: bool) -> BoxedStrategy<Case> {
     let max_ops = tier.pick(60, 110);
     (prop::sample::select(vec![1usize, 1, 2, 3]), typedef_strategy("ev", 2, 5))
         .prop_flat_map(move |(epz, td)| {
@@ -124,9 +124,15 @@ fn case_strategy(tier: Tier, open: Vec<bool>) -> BoxedStrategy<Case> {
             (Just(cfg), Just(td), prop::collection::vec(op, 8..=max_ops), prop::collection::vec(prop_oneof![2 => q, 3 => leafq], 4..=12), grid)
         })
         .prop_map(move |(cfg, td, mut ops, mut queries, (base, step))| {
+            let mut excluded_data = 0u32;
             for op in ops.iter_mut() {
                 if let Op::Store(ev) = op {
                     for (i, f) in td.fields.iter().enumerate() {
+                        // open finding: u64 values above i64::MAX sit in another byte lane of the range filter
+                        if no_big_u64 && f.ty == FT::U64 && ev.vals[i].as_u64().map(|v| v > i64::MAX as u64).unwrap_or(false) {
+                            ev.vals[i] = json!(i64::MAX as u64);
+                            excluded_data += 1;
+                        }
                         if matches!(f.ty, FT::Datetime | FT::Date) {
                             if let Some(v) = ev.vals[i].as_i64() {
                                 ev.vals[i] = json!(remap_time(v, base, step));
@@ -140,7 +146,7 @@ fn case_strategy(tier: Tier, open: Vec<bool>) -> BoxedStrategy<Case> {
             }
             let before = queries.len();
             queries.retain(|q| !excluded_by(&open, &td, &q.w));
-            let excluded = (before - queries.len()) as u32;
+            let excluded = (before - queries.len()) as u32 + excluded_data;
             Case { cfg, td, ops, queries, excluded }
         })
         .boxed()
@@ -381,7 +387,8 @@ pub fn run(ctx: &Ctx) -> i32 {
     let cases = ctx.tier.pick(320, 4000);
     let tier = ctx.tier;
     let open: Vec<bool> = classes().iter().map(|(c, _)| ctx.open(c)).collect();
-    if let Some(f) = explore(ctx, "prune", || case_strategy(tier, open.clone()), Explore { cases, max_shrink_iters: ctx.tier.pick(120, 400), lanes: ctx.lanes }, &stats, run_case) {
+    let no_big_u64 = ctx.open("prune.u64_above_i64_max");
+    if let Some(f) = explore(ctx, "prune", || case_strategy(tier, open.clone(), no_big_u64), Explore { cases, max_shrink_iters: ctx.tier.pick(120, 400), lanes: ctx.lanes }, &stats, run_case) {
         report.violations.push(f);
     }
     finish(ctx, stats.into_inner().unwrap(), report)
